@@ -102,6 +102,11 @@ def static_value(facts, path, promoted=-1, crate="anything", _depth=0):
         if k == "const":
             v = F.const_val(o)
             if v is None:
+                # a named constant of the crate (`const X: T = ...`): its own MIR gives the value
+                nm = (o.get("dbg") or "").replace("const ", "").strip()
+                cb = facts.fn(nm, crate)
+                if cb is not None and cb.kind.startswith(("Const", "AssocConst")):
+                    return static_value(facts, nm, -1, crate, _depth + 1)
                 raise StaticEvalError("unevaluated constant %s in %s" % (o.get("dbg"), path))
             return v
         if k == "fn":
